@@ -15,7 +15,8 @@ DRIVERS = ["drv_conv"]
 DRIVER_EXE = "drv_conv"
 RULE = ("every ordered pair (u,v) of units of every quantity type of the three self-built databases, through "
         "UnitDatabase.Convert, on seeded values (0, +-1, a magnitude in [1e-12,1e12], the pre-image of base 0 "
-        "of affine units and its float neighbours, ints); distinct = distinct (db, type, u, v, x); "
+        "of affine units and its float neighbours, ints; 15% of them inside a one-element list / tuple / ndarray); "
+        "distinct = distinct (db, type, u, v, x); "
         "non-trivial = u != v and the conversion succeeded")
 EXHAUSTIVE = {"quick": False, "thorough": False}
 ASSUMPTIONS = ["float results stay within K*eps*M (K=64) of the exact model: checked on every run, not proved",
@@ -46,10 +47,28 @@ def _values(db, qt, u, rng, n):
     return pool[:n]
 
 
-def _case(kind, cq, u, v, w, x):
+def _case(kind, cq, u, v, w, x, box="num"):
     return dict(op="convert", db=kind, cq=str(sym(cq)), to=str(sym(v)), x=qstr(exact(x)),
-                _t=dict(cq=cq, u=u, v=v, w=w, x=(x if isinstance(x, int) else float(x).hex())),
+                _t=dict(cq=cq, u=u, v=v, w=w, x=(x if isinstance(x, int) else float(x).hex()), box=box),
                 **{"from": str(sym(u))})
+
+
+def _convert(db, box, cq, u, v, x):
+    """UnitDatabase.Convert on the number itself or on a one-element list / tuple / ndarray holding it (the
+    container branches of Convert must agree with the float branch: same closures)"""
+    if box == "num":
+        return db.Convert(cq, u, v, x)
+    if box == "list":
+        r = db.Convert(cq, u, v, [x])
+    elif box == "tuple":
+        r = db.Convert(cq, u, v, (x,))
+    else:
+        import numpy
+
+        r = db.Convert(cq, u, v, numpy.array([float(x)]))
+    if len(r) != 1:
+        raise ValueError("container of length %d returned for length 1" % len(r))
+    return float(r[0])
 
 
 def _x(t):
@@ -71,7 +90,8 @@ def _pairs(ctx, nvals, salt):
                         cq = rng.choice(cats) if (cats and rng.random() < 0.3) else qt
                         if cq not in db.categories_to_quantity_types and cq not in db.quantity_types:
                             cq = qt
-                        yield _case(kind, cq, u, v, w, x)
+                        box = "num" if rng.random() < 0.85 else rng.choice(["list", "tuple", "nd"])
+                        yield _case(kind, cq, u, v, w, x, box)
 
 
 def cases(ctx):
@@ -99,13 +119,13 @@ def case_key(c):
 
 def show(c):
     t = c["_t"]
-    return dict(db=c["db"], cq=t["cq"], frm=t["u"], to=t["v"], x=_x(t))
+    return dict(db=c["db"], cq=t["cq"], frm=t["u"], to=t["v"], x=_x(t), container=t.get("box", "num"))
 
 
 def impl(c, ctx):
     t = c["_t"]
     try:
-        r = ctx.dbs[c["db"]].Convert(t["cq"], t["u"], t["v"], _x(t))
+        r = _convert(ctx.dbs[c["db"]], t.get("box", "num"), t["cq"], t["u"], t["v"], _x(t))
     except Exception as e:
         return dict(err=err_kind(e))
     if isinstance(r, bool) or not isinstance(r, (int, float)):
@@ -138,7 +158,11 @@ def oracle(c, ctx):
     t = c["_t"]
     db = ctx.dbs[c["db"]]
     cq, u, v, w, x = t["cq"], t["u"], t["v"], t.get("w") or t["u"], _x(t)
-    C = db.Convert
+    box = t.get("box", "num")
+
+    def C(cq_, u_, v_, x_):
+        return _convert(db, box, cq_, u_, v_, x_)
+
     try:
         qt = db.GetInfo(db.categories_to_quantity_types[cq].quantity_type if cq in db.categories_to_quantity_types else cq, u).quantity_type
         if db.GetQuantityType(v) != qt or db.GetQuantityType(w) != qt:
@@ -148,21 +172,21 @@ def oracle(c, ctx):
         return None
     try:
         if C(cq, u, u, x) != x:
-            return dict(clause="u->u exact", got=C(cq, u, u, x), want=x)
+            return dict(clause="u->u exact", got=C(cq, u, u, x), want=x, container=box)
         y = C(cq, u, v, x)
         back = C(cq, v, u, y)
         tol = _tol(x, C(cq, v, u, 0.0), C(cq, base, u, 0.0))
         if not abs(back - x) <= tol:
-            return dict(clause="u->v->u", u=u, v=v, x=x, via=y, got=back, tol=tol)
+            return dict(clause="u->v->u", u=u, v=v, x=x, via=y, got=back, tol=tol, container=box)
         direct = C(cq, u, w, x)
         two = C(cq, v, w, y)
         tol = _tol(direct, C(cq, u, w, 0.0), C(cq, v, w, 0.0), C(cq, base, w, 0.0))
         if not abs(direct - two) <= tol:
-            return dict(clause="u->w = u->v->w", u=u, v=v, w=w, x=x, direct=direct, two_step=two, tol=tol)
+            return dict(clause="u->w = u->v->w", u=u, v=v, w=w, x=x, direct=direct, two_step=two, tol=tol, container=box)
         x2 = x + max(abs(x) * 1e-3, 1e-3 * abs(C(cq, base, u, 1.0) - C(cq, base, u, 0.0)), 1e-200)
         y2 = C(cq, u, v, x2)
         if not y < y2:
-            return dict(clause="strictly increasing", u=u, v=v, x1=x, x2=x2, y1=y, y2=y2)
+            return dict(clause="strictly increasing", u=u, v=v, x1=x, x2=x2, y1=y, y2=y2, container=box)
     except Exception as e:
         return dict(clause="conversion inside one quantity type raised", u=u, v=v, w=w, x=x, error=repr(e))
     return None
